@@ -375,9 +375,58 @@ class CanonMap(Ext):
         self.st.M_dom = z3.Store(self.st.M_dom, nm(k), False)
 
     def sym_getattr(self, eng, name):
+        st = self.st
         if name == "copy":
             return stub(lambda eng: CanonMapValue(self.st.M_dom, self.st.M_c, self.st.M_s))
+        if name in ("get", "setdefault"):
+            def get(eng, k, default=None):
+                from pyvc.ops import to_arith
+                kk = nm(k)
+                if default is None or not (isinstance(default, tuple) and len(default) == 2):
+                    if name == "setdefault":
+                        raise Unsupported("canonical map setdefault without a (name, sign) default")
+                    if not eng.branch(st.M_dom[kk]):
+                        return default
+                    return (NameV(st.M_c[kk]), st.M_s[kk])
+                known, dc, ds = st.M_dom[kk], nm(default[0]), to_arith(default[1])
+                res = (NameV(z3.If(known, st.M_c[kk], dc)), z3.If(known, st.M_s[kk], ds))
+                if name == "setdefault":            # stores the default under a key it does not hold yet
+                    st.M_c = z3.If(known, st.M_c, z3.Store(st.M_c, kk, dc))
+                    st.M_s = z3.If(known, st.M_s, z3.Store(st.M_s, kk, ds))
+                    st.M_dom = z3.Store(st.M_dom, kk, True)
+                return res
+            return stub(get)
+        if name in ("items", "keys", "values"):
+            return stub(lambda eng: CanonMapView(st, name))
         raise Unsupported("dict method %s on canonical map" % name)
+
+    def loop_snapshot(self, eng):
+        return CanonMapView(self.st, "keys").loop_snapshot(eng)
+
+
+class CanonMapView(Ext):
+    """items() / keys() / values() of the canonical map, iterated in some order"""
+
+    def __init__(self, st, what):
+        self.st, self.what = st, what
+
+    def loop_snapshot(self, eng):
+        st, what = self.st, self.what
+        dom0, c0, s0 = st.M_dom, st.M_c, st.M_s
+
+        class Snap(SetSnapshot):
+            def pick(s, eng, done):
+                v = SetSnapshot.pick(s, eng, done)
+                pair = (NameV(c0[v.t]), s0[v.t])
+                s.last = v
+                return {"keys": v, "values": pair, "items": (v, pair)}[what]
+
+            def ghost_add(s, eng, done, elem):
+                return z3.Store(done, s.last.t, True)
+
+            def unmodified(s, eng):
+                return z3.And(st.M_dom == dom0, st.M_c == c0, st.M_s == s0)
+        return Snap(st.heap, None, dom0)
 
 
 class CanonMapValue(Ext):
@@ -786,8 +835,7 @@ def h_iter(eng):
             # per-iteration obligation (P): the entry is (c, class(c) minus c) for the picked c
             c, s = val
             m = z3.Const("m", Name)
-            picked = self.frame.locals["canonical_variable"]
-            eng.prove("iter.ensures.entry_is_canonical", z3.And(nm(c) == nm(picked), p.C[nm(c)]))
+            eng.prove("iter.ensures.entry_is_canonical", p.C[nm(c)])
             eng.prove("iter.ensures.entry_is_class_minus_self", z3.ForAll(
                 [m], set_content(eng, s)[m] == z3.And(view(p, nm(c), m), m != nm(c))))
             j = z3.Const("jy", Name)
